@@ -6,7 +6,7 @@ from checks import modelbased
 MANIFEST = {
     "technique": "model-based property testing (Hypothesis): itertools.combinations / combinations_with_replacement per list vs Content::combinations on generated physical encodings",
     "level_text": "Generated-input exploration: arrays whose element types are numbers, records, lists or options, in every list-node encoding (incl. regular size 0/1, lists shorter than n, empty arrays, missing lists) x axis x n in 1..3 x replacement; the tuples read back must equal itertools' tuples per list, in order. Held on everything generated outside the recorded known findings.",
-    "level_note": "Trusted: itertools as the oracle, akmodel.decode, the /verif bridge. ak.cartesian / argcartesian / argcombinations are Python-level (tier P).",
+    "level_note": "Trusted: itertools as the oracle, akmodel.decode, the /verif bridge, and for the Python-level part (ak.cartesian / ak.argcartesian with lists and dicts of 2-3 arrays, nested=None/True/lists, axis 0 and 1; ak.argcombinations; ak.combinations with fields) the akshim emulation of awkward._ext. Partial nesting (nested=[...]) at axis=0 is not compared: its docstring example is itself irregular.",
 }
 RULE = ("case = (physical description, n, replacement, axis); expected = itertools per list at the axis; "
         "non-trivial = some list at the axis has length >= n >= 2, or n exceeds a non-empty list's length; distinct by hash of the case")
@@ -19,3 +19,161 @@ def _nontrivial(T, vals, desc, spec):
 
 
 modelbased.install(globals(), "C07", ["combinations"], CFG, nontrivial=_nontrivial)
+
+
+# ---- Python-level part: ak.cartesian / ak.argcartesian / ak.argcombinations / ak.combinations(fields=...) on the tier-P emulation
+# (added after the seeded change C07-b - ak.cartesian with a dict of arrays dropping the requested nesting - was missed: the tier-L
+# part above only reaches Content::combinations)
+import itertools  # noqa: E402
+
+from hypothesis import strategies as st  # noqa: E402
+
+from checks import pcommon as P  # noqa: E402
+from vlib.common import Violation  # noqa: E402
+
+_l_strategy, _l_run_case, _l_case_label, _l_pre_exclude = strategy, run_case, case_label, pre_exclude  # noqa: F821
+PCFG = gen.Cfg(max_depth=2, leaf_dtypes=("int64", "float64"), records=False, unions=False, strings=False, unknown=False, regular=False,
+               options=False, numpy_nd=False, max_len=3, max_list=3)
+
+
+@st.composite
+def _p_cases(draw):
+    fn = draw(st.sampled_from(["cartesian", "cartesian", "argcartesian", "argcombinations", "combinations_fields"]))
+    n = draw(st.integers(0, 3))
+    if fn in ("cartesian", "argcartesian"):
+        k = draw(st.integers(2, 3))
+        axis = draw(st.sampled_from([1, 1, 1, 0]))
+        T = ["list", M.prim("int64")] if axis == 1 else M.prim("int64")
+        arrays = []
+        for j in range(k):
+            vals = [draw(gen.value(T, PCFG)) for _ in range(n)] if axis == 1 else [draw(gen.leaf_strategy("int64", PCFG)) for _ in range(draw(st.integers(0, 3)))]
+            arrays.append(draw(gen.encode(T, vals, PCFG)))
+        asdict = draw(st.booleans())
+        keys = ["k%d" % ((j * 2) % 3) for j in range(k)] if asdict else None
+        if axis == 0:
+            nested = draw(st.sampled_from([None, False, True]))      # partial nesting at axis=0 is left alone (its docstring example is irregular)
+        else:
+            nested = draw(st.sampled_from([None, False, True, "some", "some"]))
+            if nested == "some":
+                nested = sorted(draw(st.sets(st.integers(0, k - 2), max_size=k - 1)))
+        return {"part": "P", "fn": fn, "arrays": arrays, "keys": keys, "axis": axis, "nested": nested}
+    T = ["list", M.prim("int64")]
+    vals = [draw(gen.value(T, PCFG)) for _ in range(n)]
+    return {"part": "P", "fn": fn, "arrays": [draw(gen.encode(T, vals, PCFG))], "n": draw(st.integers(1, 3)), "replacement": draw(st.booleans()),
+            "axis": draw(st.sampled_from([1, 1, 0])), "fields": draw(st.booleans())}
+
+
+def strategy(tier):  # noqa: F811
+    return st.one_of(_l_strategy(tier), _l_strategy(tier), _l_strategy(tier), _l_strategy(tier), _l_strategy(tier), _l_strategy(tier), _p_cases())
+
+
+def case_label(case):  # noqa: F811
+    return ("P:" + case["fn"]) if case.get("part") == "P" else _l_case_label(case)
+
+
+def pre_exclude(case):  # noqa: F811
+    return None if case.get("part") == "P" else _l_pre_exclude(case)
+
+
+def _nest(lists, nested, mk):
+    """full product of `lists` in itertools order, grouped: the boundary after array i is kept iff i in nested"""
+    k = len(lists)
+
+    def rec(i, prefix):
+        if i == k - 1:
+            return [mk(prefix + [x]) for x in lists[i]]
+        groups = [rec(i + 1, prefix + [x]) for x in lists[i]]
+        if i in nested:
+            return groups
+        return [t for g in groups for t in g]
+    return rec(0, [])
+
+
+def _p_run(case):
+    A = P.ak()
+    buffers = []
+    arrs = [P.harray(d, buffers) for d in case["arrays"]]
+    snaps = P.snapshot(buffers)
+    vals = [M.decode(d)[1] for d in case["arrays"]]
+    fn = case["fn"]
+    tags = ["P:" + fn]
+    if fn in ("cartesian", "argcartesian"):
+        k = len(arrs)
+        keys = case["keys"]
+        nested = case["nested"]
+        nset = set(range(k - 1)) if nested is True else (set() if nested in (None, False) else set(nested))
+        pos = fn == "argcartesian"
+
+        def mk(items):
+            return dict(zip(keys, items)) if keys else tuple(items)
+        if case["axis"] == 1:
+            expected = [_nest([list(range(len(v[i]))) if pos else v[i] for v in vals], nset, mk) for i in range(len(vals[0]))]
+        else:
+            expected = _nest([list(range(len(v))) if pos else v for v in vals], nset, mk)
+        arg = dict(zip(keys, arrs)) if keys else arrs
+        lib_nested = nested if not (keys and isinstance(nested, list)) else [keys[i] for i in nested]
+        kind, res = P.outcome(lambda: getattr(A, fn)(arg, axis=case["axis"], nested=lib_nested))
+        tags += ["axis:%d" % case["axis"], "dict" if keys else "list", "nested:%s" % ("partial" if isinstance(nested, list) and nested else nested)]
+    else:
+        v = vals[0]
+        n, rep = case["n"], case["replacement"]
+        comb = itertools.combinations_with_replacement if rep else itertools.combinations
+        names = ["c%d" % i for i in range(n)] if case.get("fields") else None
+
+        def mk(t):
+            return dict(zip(names, t)) if names else tuple(t)
+        if case["axis"] == 1:
+            expected = [[mk(t) for t in comb(range(len(x)) if fn == "argcombinations" else x, n)] for x in v]
+        else:
+            # axis=0: combinations of the array's own items (whole lists)
+            expected = [mk(t) for t in comb(range(len(v)) if fn == "argcombinations" else v, n)]
+        f = A.argcombinations if fn == "argcombinations" else A.combinations
+        kind, res = P.outcome(lambda: f(arrs[0], n, replacement=rep, axis=case["axis"], fields=names))
+        tags += ["axis:%d" % case["axis"], "n:%d" % n]
+    P.check_purity(buffers, snaps, fn)
+    if kind != "ok":
+        raise Violation("refused:P:" + fn, "ak.%s raised %s: %s" % (fn, kind, str(res)[:300]), expected=M.jsonable(expected))
+    _, got = P.read(res, fn)
+    if not M.same_value(got, expected):
+        raise Violation("value:P:" + fn, "ak.%s differs from the itertools enumeration" % fn, expected=M.jsonable(expected), observed=M.jsonable(got))
+    flat = repr(expected)
+    return {"tags": tags, "nontrivial": "(" in flat or "{" in flat, "sample_class": "P:" + fn}
+
+
+def run_case(case):  # noqa: F811
+    if case.get("part") == "P":
+        return _p_run(case)
+    return _l_run_case(case)
+
+
+_l_setup = setup  # noqa: F821
+
+
+def setup(flavour, tier):  # noqa: F811
+    _l_setup(flavour, tier)
+    P.ak()
+
+
+# ---- known findings of the Python-level part (all at axis=0, the separately written branch of ak.cartesian)
+def _p(case):
+    return case.get("part") == "P" and case.get("fn") in ("cartesian", "argcartesian") and case.get("axis") == 0
+
+
+def _known_axis0_nested_dict(case, vio):
+    return _p(case) and bool(case.get("keys")) and case.get("nested") is True and vio.get("bucket", "").startswith("refused:P:") and "IndexError" in vio.get("message", "")
+
+
+def _known_axis0_indexed_input(case, vio):
+    return (_p(case) and vio.get("bucket", "").startswith("closure:") and "contains IndexedArray" in vio.get("message", "")
+            and any(d["class"].startswith("IndexedArray") for d in case["arrays"]))
+
+
+def _known_axis0_nested_empty(case, vio):
+    return (_p(case) and case.get("nested") is True and vio.get("bucket", "").startswith("value:P:")
+            and any(len(M.decode(d)[1]) == 0 for d in case["arrays"]))
+
+
+KNOWN = dict(KNOWN)  # noqa: F821
+KNOWN["cartesian_axis0_nested_dict"] = _known_axis0_nested_dict
+KNOWN["cartesian_axis0_indexed_input"] = _known_axis0_indexed_input
+KNOWN["cartesian_axis0_nested_empty"] = _known_axis0_nested_empty
